@@ -12,6 +12,7 @@ import (
 	"math/big"
 	"os"
 	"path/filepath"
+	"strconv"
 	"strings"
 	"time"
 
@@ -368,6 +369,14 @@ func Build(t *TxSpec, keys map[string]Key, nodeChain string) (*Built, error) {
 		t.Time = tx.Time
 		sigok = false
 	default:
+		if strings.HasPrefix(t.Tamper, "siglen:") { // the signature cut or zero-padded to n bytes
+			n, _ := strconv.Atoi(t.Tamper[len("siglen:"):])
+			s2 := make([]byte, n)
+			copy(s2, sig)
+			tx.Sig = s2
+			sigok = false
+			break
+		}
 		if strings.HasPrefix(t.Tamper, "reuse-sig:") {
 			old, err := hex.DecodeString(t.Tamper[len("reuse-sig:"):])
 			if err != nil {
